@@ -294,6 +294,42 @@ theorem kraus_hs_action (B : Basis K d (d * d)) (h : Orthonormal B) (ks : List (
   apply flat_injective
   rw [← comp_basis_action, hsOfKraus_comp B h, krausTensorSum_action]
 
+/-- process-matrix formula: for **every** basis `to_process_matrix_from_hs`
+(`χ_{αβ} = tr((E_α^† ⊗ E_β^T) HS_cb)`) equals the Choi matrix; hence (orthonormal basis) for a map given by
+Kraus operators `χ = Σ_K k k^†` with `k` the computational-basis coefficients of `K`, i.e.
+`Λ(ρ) = Σ_{αβ} χ_{αβ} E_α ρ E_β^†`. -/
+theorem processMatrix_eq_choi (B : Basis K d (d * d)) (hs : Mat K (d * d) (d * d)) :
+    processMatrix B hs = choiSparse B hs := by
+  apply Mat.ext'; intro al be
+  rw [processMatrix_get, choi_eq_reshuffled_comp]
+
+theorem processMatrix_of_kraus (B : Basis K d (d * d)) (h : Orthonormal B) (ks : List (Mat K d d))
+    (al be : Fin (d * d)) :
+    (processMatrix B (hsOfKrausRaw B ks)).get al be
+      = (ks.map fun k => k.get (pdiv al) (pmod al) * star (k.get (pdiv be) (pmod be))).sum := by
+  rw [processMatrix_eq_choi, choi_of_kraus B h]
+  simp
+
+/-- row- versus column-major computational basis: the column-major basis is the row-major one
+permuted by the transpose permutation `σ(i·d+j) = j·d+i`, the column-major HS matrix is the row-major
+one with rows and columns permuted by `σ`, and it acts on the **column-major** flattening
+(`flatten('F')`) as the map itself. -/
+theorem comp_basis_col_eq_row_permuted (B : Basis K d (d * d)) (hs : Mat K (d * d) (d * d))
+    (rho : Mat K d d) :
+    (∀ x, (compBasis d false : Basis K d (d * d)).get x = (compBasis d true : Basis K d (d * d)).get (swapIdx x)) ∧
+    (∀ x y, (convertHs B (compBasis d false) hs).get x y
+        = (convertHs B (compBasis d true) hs).get (swapIdx x) (swapIdx y)) ∧
+    (convertHs B (compBasis d false) hs).mulVec (flatCol rho)
+      = flatCol (densitySparse B (hs.mulVec (vecOfDensityRaw B rho))) := by
+  have h2 : ∀ x y, (convertHs B (compBasis d false) hs).get x y
+      = (convertHs B (compBasis d true) hs).get (swapIdx x) (swapIdx y) :=
+    convertHs_reindex B (compBasis d true) (compBasis d false) swapIdx (compBasis_col_get d) hs
+  refine ⟨compBasis_col_get d, h2, ?_⟩
+  apply Vec.ext'; intro x
+  rw [flatCol_get, ← comp_basis_action]
+  simp only [Mat.mulVec, Vec.get_ofFn, fsum_eq_sum, h2, flatCol_get]
+  exact sum_swapIdx (fun y => (convertHs B (compBasis d true) hs).get (swapIdx x) y * (flat rho).get y)
+
 /-- HS → Kraus → HS, gauge-free form (**partial**): for an orthonormal basis, *any* list of operators whose
 `Σ_K |K⟫⟪K|` equals the Choi matrix of `hs` (this is what `to_kraus_matrices_from_hs` builds from numpy's
 `eigh`: `K_e = sqrt(λ_e)·unvec(v_e)` with `C = Σ_e λ_e v_e v_e^†`; phases, order and the choice of eigenvectors
@@ -311,6 +347,34 @@ theorem kraus_roundtrip_partial (B : Basis K d (d * d)) (h : Orthonormal B) (hs 
     rw [choi_of_kraus B h, hk]
   have := congrArg (hsOfChoiSparseRaw B) e
   rwa [(hs_choi_hs B h _).1, (hs_choi_hs B h _).1] at this
+
+/-- HS → Kraus → HS as a theorem about the executable `krausRaw` (zero-eigenvalue filter, stable descending
+sort, scaling by `sqrt`), **under the explicit contract of numpy's kernels only**:
+* `hspec`: the eigenpairs handed in reproduce the Choi matrix, `C = Σ_e λ_e v_e v_e^†` (orthonormality of
+  the eigenvectors is *not* needed);
+* `hsqrt`: `sqrtVal² = val` on the eigenvalues that pass the filter;
+* `hzero`: eigenvalues inside the zero filter (`|λ| ≤ atolSettings`) are exactly 0 (exact arithmetic).
+Then for a map that passes the CP verdict, `to_hs_from_kraus_matrices(to_kraus_matrices_from_hs(hs)) = hs`
+(before `truncate_hs`).  The phase convention of step 3 multiplies each operator by a unit-modulus scalar and
+leaves `Σ K ⊗ conj K`, hence the result, unchanged; it is checked on the implementation by the oracle. -/
+theorem kraus_roundtrip {d : Nat} (B : Basis CRat d (d * d)) (h : Orthonormal B)
+    (hs : Mat CRat (d * d) (d * d)) (eigs : List (EigPair d)) (atol atolS : Rat)
+    (hcp : isCp (choiSparse B hs) eigs atol = true)
+    (hspec : ∀ i j, (choiSparse B hs).get i j
+      = (eigs.map fun e => CRat.ofRat e.val * (e.vec.get i * conj (e.vec.get j))).sum)
+    (hsqrt : ∀ e ∈ eigs, closeZero e.val atolS = false → e.sqrtVal * e.sqrtVal = e.val)
+    (hzero : ∀ e ∈ eigs, closeZero e.val atolS = true → e.val = 0) :
+    hsOfKrausRaw B (krausRaw B hs eigs atol atolS) = hs := by
+  apply kraus_roundtrip_partial B h hs
+  intro i j
+  rw [krausRaw_sum B hs eigs atol atolS hcp hsqrt hzero i j, hspec i j]
+  rfl
+
+/-- a map that fails the CP verdict has no Kraus operators (`[]`). -/
+theorem kraus_empty_of_not_cp {d : Nat} (B : Basis CRat d (d * d)) (hs : Mat CRat (d * d) (d * d))
+    (eigs : List (EigPair d)) (atol atolS : Rat) (hcp : isCp (choiSparse B hs) eigs atol = false) :
+    krausRaw B hs eigs atol atolS = [] := by
+  simp [krausRaw, hcp]
 
 /-! ## truncate_hs -/
 
@@ -342,5 +406,15 @@ example (hs : Mat CRat (2 * 2) (2 * 2)) : hsOfChoiSparseRaw B0 (choiSparse B0 hs
   (hs_choi_hs B0 B0_orthonormal hs).1
 example (hs : Mat CRat (2 * 2) (2 * 2)) : choiDict B0 hs = choiSparse B0 hs :=
   (choi_variants_agree B0 hs (by decide)).2.1
+
+-- the eigh contract of `kraus_roundtrip` is satisfiable: identity channel on `B0` (HS = 1), Choi matrix
+-- `|1⟫⟪1|` given by the single (unnormalised) eigenpair λ = 1, v = (1,0,0,1), plus a zero eigenpair that the
+-- filter drops
+def idHs : Mat CRat (2 * 2) (2 * 2) := Mat.ofFn fun i j => if i = j then 1 else 0
+def idEigs : List (EigPair 2) :=
+  [⟨0, 0, #v[⟨1, 0⟩, ⟨0, 0⟩, ⟨0, 0⟩, ⟨-1, 0⟩]⟩, ⟨1, 1, #v[⟨1, 0⟩, ⟨0, 0⟩, ⟨0, 0⟩, ⟨1, 0⟩]⟩]
+example : hsOfKrausRaw B0 (krausRaw B0 idHs idEigs 0 0) = idHs :=
+  kraus_roundtrip B0 B0_orthonormal idHs idEigs 0 0 (by decide +kernel)
+    (by intro i j; revert i j; decide +kernel) (by decide +kernel) (by decide +kernel)
 
 end QM.C02
